@@ -186,7 +186,7 @@ mod builtins {
     };
     use crate::utils::{safe_sort, splitn_whitespace, untrusted_size_hint};
     use crate::value::merge_object::{MergeDict, MergeSeq};
-    use crate::value::ops::{self, as_f64, LenIterWrap};
+    use crate::value::ops::{self, as_f64, LenIterWrap, MAX_REPEATED_STRING_LEN};
     use crate::value::{
         Enumerator, Kwargs, Object, ObjectRepr, Rest, StringInput, Tuple, ValueKind, ValueOrKwargs,
         ValueRepr,
@@ -1211,6 +1211,12 @@ mod builtins {
         };
         ok!(args.assert_all_used());
         if let Some(indent) = indent {
+            if indent > MAX_REPEATED_STRING_LEN {
+                return Err(Error::new(
+                    ErrorKind::InvalidOperation,
+                    "indentation is too large",
+                ));
+            }
             let indentation = " ".repeat(indent);
             serialize_json(
                 value,
@@ -1293,6 +1299,14 @@ mod builtins {
         ok!(kwargs.assert_all_used());
 
         let input = strip_trailing_newline(value.as_str());
+        // the indentation is added once per line, limit what it adds up to
+        if !matches!(width.checked_mul(input.split('\n').count()), Some(len) if len <= MAX_REPEATED_STRING_LEN)
+        {
+            return Err(Error::new(
+                ErrorKind::InvalidOperation,
+                "indentation is too large",
+            ));
+        }
         let indent_with = " ".repeat(width);
         let mut output = String::new();
         let mut iterator = input.split('\n');
